@@ -143,6 +143,7 @@ CHECKS = {
                                                   "leak detection counts goroutines with a frame in a *Conn method (send, recv, runLoop, ping, close)"],
         "legs": [
             {"test": "TestC07_Regress", "quick": {"timeout": "10m"}, "thorough": {"timeout": "10m"}},
+            {"test": "TestC07_RateLimitedReconnect", "quick": {"timeout": "10m"}, "thorough": {"timeout": "10m"}},
             {"test": "TestC07", "quick": {"checks": 250, "timeout": "30m", "env": {"VERIF_C07_RL_ONE_IN": 40, "VERIF_C07_RL_CYCLES": 1}},
              "thorough": {"checks": 2500, "shards": 8, "timeout": "120m", "env": {"VERIF_C07_RL_ONE_IN": 25, "VERIF_C07_RL_CYCLES": 2}}},
         ],
